@@ -181,7 +181,11 @@ def focus_lines(case: dict, ind: str, pkg: str) -> list:
             bases = "Aa"
         deco = slot_src if slot == "class.decorator" else alt_src(case["deco"]) if part != "expr" else None
         lines = ([f"{ind}@{deco}"] if deco else []) + [f"{ind}class {name}" + (f"({bases})" if bases else "") + ":"]
-        return lines + (_docline(doc, ind + "    ") or [f"{ind}    pass"])
+        body = _docline(doc, ind + "    ")
+        if case["where"] == "shadowed":
+            # members named like the names the header uses: they must not capture the header's names
+            body += [f"{ind}    Aa = 0", f"{ind}    ff = 0"]
+        return lines + (body or [f"{ind}    pass"])
     if kind == "function" and case["host"] == "dataclass":
         # the focus is the __init__ synthesised from this field
         fld = {"plain": "0", "kw_true": "field(default=0, kw_only=True)", "kw_expr": "field(default=0, kw_only=MISSING)"}[case["dfield"]]
@@ -304,6 +308,9 @@ def layout(case: dict, idx: int, lean: bool = False) -> dict:
             body += ["if TYPE_CHECKING:"] * guarded + focus_lines(case, "    " if guarded else "", pkg)
             names = [case["mname"]]
     files[f"{pkg}/__init__.py"] = "\n".join(body) + "\n"
+    if case.get("guard") == "stubsig":
+        # the stub names a parameter the runtime signature lacks, and annotates the shared one and the return value
+        files[f"{pkg}/__init__.pyi"] = f"def {case['mname']}(p: 1, q: 1 = 0) -> 1: ...\n"
     if kind == "alias" and origin == "static":
         files[f"{pkg}/_t.py"] = f"thing = 1\n{case['mname']} = 1\n" if case["alno"] in ("wild", "over") else "thing = 1\n"
     return {"files": files, "pkg": pkg, "opts": opts, "real_names": names, "model_names": names, "prune": origin != "static"}
